@@ -91,3 +91,17 @@ CHECKS["C05"] = dict(
           "histories and probe patterns enumerated and sampled (480 quick, ~6.8k thorough). Two defects found by this check were repaired "
           "(c4ac278, 60b1be0) and are listed as fixed."),
 )
+
+CHECKS["C06"] = dict(
+    engine="symx", category="model_checking", design_ref="DESIGN.md §6 C06",
+    technique="symbolic execution of the real resolution code with the iteration order of ovld's internal sets, the registration order and the presence of non-applicable methods as solver variables (z3), over a symbolic hierarchy; differential oracle against the canonical run",
+    text=("PermSet replaces the module-level name `set` of ovld.typemap/mro/recode/core: every element carries one symbolic rank and every set "
+          "iterates in rank order, so the solver enumerates the iteration orders a hash seed could produce; the registration permutation and two "
+          "non-applicable extra methods (other arity with any harness class on its first position; unrelated concrete class) are selectors. For each "
+          "class of (hierarchy, priorities, orders, extras) the outcome must equal the canonical run's under the same hierarchy and priorities."),
+    note=("Bounds: 3 classes (4 for the plain-class families), 2-3 distinct signatures over classes / Union / Intersection / Exactly / StrictSubclass / "
+          "Dependent; quick: equal priorities and one varied dimension at a time; thorough: symbolic priorities and joint variation. Set order modelled "
+          "as one global ranking (exact for tables without collisions). Recorded findings excluded by mechanism predicates: extras change the integer "
+          "layering (C02-integer-levels mechanism, both outcomes must be rule-or-mechanism explained), asymmetric typeorder between two applicable "
+          "registered types (C12 hook findings)."),
+)
